@@ -124,6 +124,8 @@ func (c *Ctx) Name(prefix string, t *Term) *Term {
 	return v
 }
 
+func (c *Ctx) isFreshName(n string) bool { return strings.Contains(n, "!") }
+
 func (c *Ctx) Assume(t *Term) {
 	if t.IsTrue() {
 		return
@@ -161,18 +163,10 @@ func (o *Obligation) SMT(withModel bool) string {
 	}
 	// relevance: include everything (queries are small); declarations in order.
 	for _, d := range c.decls {
-		switch {
-		case d.body != nil:
-			kw := "define-fun"
-			if d.rec {
-				kw = "define-fun-rec"
-			}
-			fmt.Fprintf(&sb, "(%s %s (", kw, d.name)
-			for _, p := range d.params {
-				fmt.Fprintf(&sb, "(%s %s)", p.Op, p.S)
-			}
-			fmt.Fprintf(&sb, ") %s %s)\n", d.ret, d.body)
-		case d.args != nil:
+		if d.body != nil {
+			continue
+		}
+		if d.args != nil {
 			fmt.Fprintf(&sb, "(declare-fun %s (", d.name)
 			for i, a := range d.args {
 				if i > 0 {
@@ -181,15 +175,76 @@ func (o *Obligation) SMT(withModel bool) string {
 				sb.WriteString(string(a))
 			}
 			fmt.Fprintf(&sb, ") %s)\n", d.ret)
-		default:
+		} else {
 			fmt.Fprintf(&sb, "(declare-fun %s () %s)\n", d.name, d.ret)
 		}
+	}
+	for _, d := range c.decls {
+		if d.body == nil {
+			continue
+		}
+		kw := "define-fun"
+		if d.rec {
+			kw = "define-fun-rec"
+		}
+		fmt.Fprintf(&sb, "(%s %s (", kw, d.name)
+		for _, p := range d.params {
+			fmt.Fprintf(&sb, "(%s %s)", p.Op, p.S)
+		}
+		fmt.Fprintf(&sb, ") %s %s)\n", d.ret, d.body)
 	}
 	for _, a := range c.axioms {
 		fmt.Fprintf(&sb, "(assert %s) ; axiom %s\n", a.t, a.name)
 	}
-	for _, d := range c.defs {
-		fmt.Fprintf(&sb, "(assert %s)\n", d)
+	// cone of influence over the definitional facts (dropping facts is always sound)
+	reach := map[string]bool{}
+	freeSyms(o.Guard, reach)
+	if o.Goal != nil {
+		freeSyms(o.Goal, reach)
+	}
+	for _, a := range c.assumes[:o.nassume] {
+		freeSyms(a, reach)
+	}
+	for _, mv := range o.ModelVars {
+		freeSyms(mv.T, reach)
+	}
+	included := make([]bool, len(c.defs))
+	for changed := true; changed; {
+		changed = false
+		for i, d := range c.defs {
+			if included[i] {
+				continue
+			}
+			take := false
+			if d.Op == "=" && len(d.Args) == 2 && len(d.Args[0].Args) == 0 && d.Args[0].lit == nil && c.isFreshName(d.Args[0].Op) {
+				take = reach[d.Args[0].Op]
+			} else {
+				syms := map[string]bool{}
+				freeSyms(d, syms)
+				nconst := 0
+				for sy := range syms {
+					if dd, ok := c.declIdx[sy]; ok && dd.args == nil && dd.body == nil {
+						nconst++
+						if reach[sy] {
+							take = true
+						}
+					}
+				}
+				if nconst == 0 {
+					take = true
+				}
+			}
+			if take {
+				included[i] = true
+				changed = true
+				freeSyms(d, reach)
+			}
+		}
+	}
+	for i, d := range c.defs {
+		if included[i] {
+			fmt.Fprintf(&sb, "(assert %s)\n", d)
+		}
 	}
 	for _, a := range c.assumes[:o.nassume] {
 		fmt.Fprintf(&sb, "(assert %s)\n", a)
